@@ -10,6 +10,7 @@ from ..refprinter import tokenize
 
 class C02(MotionMonitor):
     prop = "C02"
+    quick_cases = 1200
     rule = ("three classes: no regions / exclusion disabled by the first command (both with the whole dialect: I/J and R arcs, arcs "
             "under G91, G92 X/Y/Z, M206, G10 P/L, unmatched and mixed retractions, extended codes, unknown codes) / regions present "
             "but every destination and every arc path point kept outside (reference printer B confirms it); both values of "
